@@ -105,3 +105,31 @@ Theorem C02_fuel_suffices : forall depsf rk rkp M st f b id st' b' r,
   get depsf f st b id = (st', b', r) -> r <> RErr (s "out of fuel").
 Proof. exact get_never_out_of_fuel. Qed.
 Print Assumptions C02_fuel_suffices.
+
+(** ---- end to end (Proofs/E2EProofs.v): every declared service arrives in the run-time state under its name with its declared scope, tags,
+    constructor (import expanded), arguments in declared order, fields (sorted by name) and calls in declared order with their wither flag;
+    a placeholder arrives as a placeholder ---- *)
+From GV Require Import Base.Str Base.Sort Model.Env Model.Input Model.Merge Model.Imports Model.Compile Model.Runner Runtime.RT Runtime.Load Proofs.RefsProofs Proofs.E2EProofs.
+From Coq Require Import List ZArith.
+Import ListNotations.
+Theorem C02_loaded_services_are_the_declared_ones : forall (E : env),
+  w_compiler_steps E = [CValidate; CMeta; CParams; CServices; CDecorators] ->
+  forall B i o c envv, compile E B i = ((o, None), c) ->
+  Forall2 (fun kv nd => fst nd = fst kv /\ loaded_service E (meta_fns E i) (cs_imports c) kv nd)
+          (sorted_entries (i_services i)) (rt_services (load E o c envv)).
+Proof. exact e2e_services. Qed.
+Print Assumptions C02_loaded_services_are_the_declared_ones.
+
+(** how a compiled argument is classified, from its own source text: the documented argument forms *)
+Theorem C02_loaded_argument_forms : forall (E : env) id v fns fin p d,
+  w_arg_chain E = [RNonString; RValue; RService; RTagged; RFixed id v; RPattern] ->
+  w_factories E = [FPercent; FReference; FUnexpectedFunction; FUnexpectedToken; FString] ->
+  loaded_dep E fns fin p d ->
+  match src_services E p, src_tags E p, p with
+  | n :: _, _, _ => d = DService n
+  | [], t :: _, _ => d = DTag t
+  | [], [], PStr x => if str_eqb x (s "$gontainer") then d = DContainer else d = DPattern (rtoks E fns fin x) \/ exists w, d = DValue w
+  | [], [], _ => d = DLit p
+  end.
+Proof. exact loaded_dep_cases. Qed.
+Print Assumptions C02_loaded_argument_forms.
